@@ -498,6 +498,54 @@ theorem pull_regenerated_from_source (cl : Bool → String → EtcdResp) (key : 
     Gen.FactsC19IR.extractionFailed = false ∧ Gen.FactsC19IR.pullIR cl key pfx = pull pfx (cl pfx key) :=
   ⟨by decide, Syncer.pull_regenerated_from_source cl key pfx⟩
 
+/-! ### The getters of op.go below `pull`: one linearizable read per pull
+
+`snapshots_real` (every delivered snapshot is `S i`) rests on `okOutcome`: a successful pull returns ONE
+store state. For a key that is `client.Get(key)`, for a prefix ONE `client.Get(prefix, WithPrefix())` — a single
+linearizable range read of etcd. A prefix read assembled from several requests (pages, retries of a part …)
+could mix two revisions and would not be an `S i`. The obligations below are what ties this: the generated
+definitions contain exactly one `client … key` answer and no loop of reads; a second `Get`, a paging loop or other
+read options fail the extraction or change the definition, and the broken theorem names the function. -/
+
+theorem getRaw_regenerated_from_source (cl : Bool → String → EtcdResp) (gc : Bool) (key : String) :
+    Gen.FactsC19IR.extractionFailed = false ∧
+    Gen.FactsC19IR.getRawIR cl gc key = getRaw (Gen.FactsC19IR.respOf cl gc false key) :=
+  ⟨by decide, Syncer.getRaw_regenerated_from_source cl gc key⟩
+
+/-- `GetRawPrefix` = the key-values of ONE `client.Get(ctx, prefix, clientv3.WithPrefix())` (`RespWF`: a range
+response lists every key once). -/
+theorem getRawPrefix_regenerated_from_source (cl : Bool → String → EtcdResp) (gc : Bool) (key : String)
+    (hwf : RespWF (cl true key)) :
+    Gen.FactsC19IR.extractionFailed = false ∧
+    Gen.FactsC19IR.getRawPrefixIR cl gc key = getRawPrefix (Gen.FactsC19IR.respOf cl gc true key) :=
+  ⟨by decide, Syncer.getRawPrefix_regenerated_from_source cl gc key hwf⟩
+
+theorem get_regenerated_from_source (cl : Bool → String → EtcdResp) (gc : Bool) (key : String) :
+    Gen.FactsC19IR.extractionFailed = false ∧
+    Gen.FactsC19IR.getIR cl gc key = get (Gen.FactsC19IR.respOf cl gc false key) :=
+  ⟨by decide, Syncer.get_regenerated_from_source cl gc key⟩
+
+theorem getPrefix_regenerated_from_source (cl : Bool → String → EtcdResp) (gc : Bool) (key : String)
+    (hwf : RespWF (cl true key)) :
+    Gen.FactsC19IR.extractionFailed = false ∧
+    Gen.FactsC19IR.getPrefixIR cl gc key = getPrefix (Gen.FactsC19IR.respOf cl gc true key) :=
+  ⟨by decide, Syncer.getPrefix_regenerated_from_source cl gc key hwf⟩
+
+/-- **A pull is one linearizable read**: composing the translated `syncer.pull` with the translated getters, the
+map a pull returns is a function of ONE answer of the store — `cl pfx key` — whatever the key / prefix; an
+error of that one read (or of `getClient`) is a failed pull. This is the code-level content of `okOutcome`
+on which `snapshots_real` rests. -/
+theorem pull_is_one_linearizable_read (cl : Bool → String → EtcdResp) (gc : Bool) (key : String) (pfx : Bool)
+    (hwf : RespWF (cl true key)) :
+    Gen.FactsC19IR.pullIR (Gen.FactsC19IR.respOf cl gc) key pfx =
+      pull pfx (if gc then .error else cl pfx key) ∧
+    (Gen.FactsC19IR.getRawPrefixIR cl gc key).1 = (getRawPrefix (if gc then .error else cl true key)).1 ∧
+    (Gen.FactsC19IR.getRawIR cl gc key).1 = (getRaw (if gc then .error else cl false key)).1 := by
+  refine ⟨?_, ?_, ?_⟩
+  · rw [Syncer.pull_regenerated_from_source]; rfl
+  · rw [Syncer.getRawPrefix_regenerated_from_source cl gc key hwf]; rfl
+  · rw [Syncer.getRaw_regenerated_from_source]; rfl
+
 /-- The closure `pullCompareSend` of `run` (captured `data` starts as the empty map): pull of this
 key / prefix; error ⇒ return; old `data` compared with the pulled map; `data = newData` before the single
 `send(data)`. -/
@@ -834,5 +882,11 @@ theorem generated_snapshots_real (key : String) (pfx : Bool) :
         · exact Or.inr ⟨pl, List.mem_cons_self, hd2⟩
         · exact Or.inl h
     · exact Or.inr ⟨pl', List.mem_cons_of_mem _ hpl', hd'⟩
+
+/-- Non-vacuity of the getter tie: a two-key range response, and a failed read. -/
+example : Gen.FactsC19IR.getRawPrefixIR (fun _ _ => .kvs [⟨"p/a", "1"⟩, ⟨"p/b", "2"⟩]) false "p/" =
+    ([("p/a", kvA), ("p/b", kvB)], false) := by decide
+example : RespWF (.kvs [⟨"p/a", "1"⟩, ⟨"p/b", "2"⟩]) := by simp [RespWF]
+example : (Gen.FactsC19IR.getRawPrefixIR (fun _ _ => .error) false "p/").2 = true := by decide
 
 end EgVerif.C19
